@@ -48,6 +48,7 @@ package vm
 //@ func callGas
 //@   props C16
 //@   requires callCost != nil && val(callCost) >= 0
+//@   let cbs = gasTable.CreateBySuicide; cc = val(callCost)
 //@   modifies nothing
 //@   ensures result1 == nil && gasTable.CreateBySuicide > 0 && base <= availableGas ==> result0 <= (availableGas - base) - (availableGas - base) / 64
 //@   ensures result1 == nil && gasTable.CreateBySuicide == 0 ==> int(result0) == val(callCost)
